@@ -813,13 +813,16 @@ impl Engine for C10 {
                         kind: "rel-to-no-bbox".into(),
                         xml: {
                             // another, perfectly good, element to go with it where a list is taken
-                            let good = if nn >= 3 { nodes[1].id.clone() } else { id0.clone() };
-                            match w.below(7) {
+                            // (its own: every other node may depend on node 0)
+                            let good = format!("{id}ok");
+                            let mk_good = format!("<rect id=\"{good}\" xy=\"70 70\" wh=\"4\"/>");
+                            match w.below(9) {
                                 0 => format!("<rect id=\"{id}\" xy=\"#{id0}|h\" width=\"3\" height=\"3\"/>"),
-                                1 => format!("<rect id=\"{id}\" surround=\"#{good} #{id0}\" margin=\"1\"/>"),
+                                1 | 7 => format!("{mk_good}<rect id=\"{id}\" surround=\"#{good} #{id0}\" margin=\"1\"/>"),
+                                8 => format!("{mk_good}<rect id=\"{id}\" surround=\"#{id0} #{good}\"/>"),
                                 2 => format!("<rect id=\"{id}\" surround=\"#{id0}\"/>"),
                                 3 => format!("<rect id=\"{id}\" inside=\"#{id0}\"/>"),
-                                4 => format!("<line id=\"{id}\" start=\"#{good}\" end=\"#{id0}\"/>"),
+                                4 => format!("{mk_good}<line id=\"{id}\" start=\"#{good}\" end=\"#{id0}\"/>"),
                                 5 => format!("<rect id=\"{id}\" x=\"#{id0}~x2\" y=\"1\" wh=\"2\"/>"),
                                 _ => format!("<rect id=\"{id}\" xy=\"1 1\" width=\"{{{{#{id0}~w + 1}}}}\" height=\"2\"/>"),
                             }
